@@ -107,7 +107,7 @@ class Run:
     # ---------------------------------------------------------------- verdicts
     def discharge(self):
         quick = self.tier == "quick"
-        timeout = int(os.environ.get("PYVC_TIMEOUT_MS", "120000" if quick else "600000"))
+        timeout = int(os.environ.get("PYVC_TIMEOUT_MS", "60000" if quick else "300000"))
         t = time.time()
         self.results = solve.discharge(self.tasks, timeout_ms=timeout, seed=self.seed % 1000, cvc5_fallback=True,
                                        cvc5_recheck=not quick)
@@ -275,11 +275,36 @@ def model_value(v, model):
             if isinstance(x, list):
                 return Fraction(x[0], x[1])
             return x
-        # compound term: substitute
+        # compound term: substitute the model into its constants and simplify
+        consts = {}
+
+        def walk(e):
+            if z3.is_const(e) and e.decl().kind() == z3.Z3_OP_UNINTERPRETED:
+                consts[e.decl().name()] = e
+            for c in e.children():
+                walk(c)
+
+        walk(v)
         subs = []
-        for name, val in model.items():
-            pass
-        raise ValueError("compound symbolic input")
+        for name, c in consts.items():
+            x = model.get(name)
+            if z3.is_bool(c):
+                subs.append((c, z3.BoolVal(bool(x))))
+            elif z3.is_int(c):
+                subs.append((c, z3.IntVal(int(x or 0))))
+            else:
+                fr = Fraction(x[0], x[1]) if isinstance(x, list) else Fraction(x or 0)
+                subs.append((c, z3.RealVal(fr)))
+        r = z3.simplify(z3.substitute(v, *subs))
+        if z3.is_int_value(r):
+            return r.as_long()
+        if z3.is_rational_value(r):
+            return Fraction(r.numerator_as_long(), r.denominator_as_long())
+        if z3.is_true(r):
+            return True
+        if z3.is_false(r):
+            return False
+        raise ValueError(f"term does not evaluate under the model: {r}")
     if isinstance(v, Obj):
         return Obj(v.cls, oid=v.oid, **{k: model_value(x, model) for k, x in v.f.items()})
     if isinstance(v, tuple):
